@@ -117,7 +117,7 @@ static std::vector<Named> g_named;
 
 // ------------------------------------------------------------------ shadow memory
 struct Cell { uintptr_t addr; uint32_t gen; int8_t wt; uint8_t shared; uint32_t wclk; uint32_t wpc; uint32_t rclk[MAXT]; uint32_t rpc[MAXT]; };
-static const size_t NCELL = 1u << 17;
+static const size_t NCELL = 1u << 20;
 static Cell *g_cells = nullptr; static uint32_t g_gen = 1; static size_t g_cells_used = 0;
 static Cell *cell_for(uintptr_t a, bool create) {
     size_t h = (size_t)(sim_mix64((uint64_t)a) & (NCELL - 1));
@@ -136,8 +136,14 @@ static void shadow_clear_range(uintptr_t lo, size_t n) {
     for (size_t i = 0; i < n; i++) { Cell *c = cell_for(lo + i, false); if (c) { c->wt = -1; memset(c->rclk, 0, sizeof c->rclk); c->shared = 0; } }
 }
 
+static char g_pseudo[64];
 static std::string describe(uintptr_t a) {
     char b[200];
+    if (a >= (uintptr_t)g_pseudo && a < (uintptr_t)g_pseudo + sizeof g_pseudo) {
+        static const char *nm[] = { "strtok", "strerror", "rand/srand", "setlocale" };
+        size_t k = (size_t)(a - (uintptr_t)g_pseudo);
+        snprintf(b, sizeof b, "the hidden process-global state of libc's %s()", k < 4 ? nm[k] : "?"); return b;
+    }
     if (__start_eavdata && a >= (uintptr_t)__start_eavdata && a < (uintptr_t)__stop_eavdata) { snprintf(b, sizeof b, "libeav static storage (.data +%zu)", (size_t)(a - (uintptr_t)__start_eavdata)); return b; }
     if (__start_eavbss && a >= (uintptr_t)__start_eavbss && a < (uintptr_t)__stop_eavbss) { snprintf(b, sizeof b, "libeav static storage (.bss +%zu)", (size_t)(a - (uintptr_t)__start_eavbss)); return b; }
     for (auto &n : g_named) if (a >= n.lo && a < n.hi) { snprintf(b, sizeof b, "%s +%zu", n.name.c_str(), (size_t)(a - n.lo)); return b; }
@@ -319,7 +325,6 @@ static void on_plain_point(uintptr_t pc_abs) {      // scheduling point without 
     ev_hash((uint32_t)(pc_abs - g_base));
 }
 
-static char g_pseudo[64];
 static void on_pseudo_write(int slot, uintptr_t pc_abs) {   // libc interface with hidden process-global state
     if (!active()) return;
     RtGuard rg_;
